@@ -324,8 +324,8 @@ func verifyChain(leaf *x509.Certificate, inter *x509.CertPool, roots *x509.CertP
 
 type x5cFacts struct {
 	present, leafOk, restOk, chainOk bool
-	n                                 int
-	leaf                              *x509.Certificate
+	n                                int
+	leaf                             *x509.Certificate
 }
 
 func (f x5cFacts) String() string {
@@ -498,7 +498,8 @@ var daMuts = []string{
 	"payload-notcbor", "payload-cborwrongtype", "payload-noattobj", "authz-missing", "authz-dbfail",
 	"nonce-absent", "nonce-other-token", "nonce-keyauth", "nonce-empty", "nonce-trunc", "udid-only", "serial-only", "ids-none", "ids-swapped-case",
 	"tpm-nover", "tpm-ver1", "tpm-nox5c", "tpm-noroots", "tpm-akcert",
-	"tpm-exact", "tpm-exact", "tpm-exact", "tpm-no-pids", "tpm-other-pid", "tpm-two-pids", "tpm-other-thumb", "tpm-other-token", "tpm-token-only",
+	"tpm-exact", "tpm-exact", "tpm-exact", "tpm-extra-empty", "tpm-extra-prefix1", "tpm-extra-prefix20", "tpm-extra-prefix31", "tpm-extra-long33",
+	"tpm-extra-zero32", "tpm-extra-suffix20", "tpm-extra-empty-other-thumb", "tpm-no-pids", "tpm-other-pid", "tpm-two-pids", "tpm-other-thumb", "tpm-other-token", "tpm-token-only",
 	"tpm-sig-flip", "tpm-other-name", "tpm-subject", "tpm-no-hw", "tpm-no-eku", "tpm-magic", "tpm-restricted", "tpm-alg-bad", "tpm-alg-es256",
 	"tpm-pubarea-empty", "tpm-wrongca", "tpm-full-noroots", "tpm-disabled",
 }
@@ -608,7 +609,8 @@ func genDA(r *c.Rng, k *Case) {
 		w.Format, w.TPMVer, w.Roots = "tpm", "2.0", "none"
 	case "tpm-akcert":
 		w.Format, w.TPMVer = "tpm", "2.0"
-	case "tpm-exact", "tpm-no-pids", "tpm-other-pid", "tpm-two-pids", "tpm-other-thumb", "tpm-other-token", "tpm-token-only", "tpm-sig-flip", "tpm-other-name",
+	case "tpm-exact", "tpm-extra-empty", "tpm-extra-prefix1", "tpm-extra-prefix20", "tpm-extra-prefix31", "tpm-extra-long33", "tpm-extra-zero32",
+		"tpm-extra-suffix20", "tpm-extra-empty-other-thumb", "tpm-no-pids", "tpm-other-pid", "tpm-two-pids", "tpm-other-thumb", "tpm-other-token", "tpm-token-only", "tpm-sig-flip", "tpm-other-name",
 		"tpm-subject", "tpm-no-hw", "tpm-no-eku", "tpm-magic", "tpm-restricted", "tpm-alg-bad", "tpm-alg-es256", "tpm-pubarea-empty", "tpm-wrongca",
 		"tpm-full-noroots", "tpm-disabled":
 		w.Format, w.TPMVer = "tpm", "2.0"
@@ -634,6 +636,10 @@ func genDA(r *c.Rng, k *Case) {
 		case "tpm-disabled":
 			w.Enabled = []string{"step"}
 		case "tpm-exact":
+		case "tpm-extra-empty", "tpm-extra-prefix1", "tpm-extra-prefix20", "tpm-extra-prefix31", "tpm-extra-long33", "tpm-extra-zero32", "tpm-extra-suffix20":
+			w.TPM.Extra = strings.TrimPrefix(m, "tpm-extra-") // truncated / padded / blank qualifying data: binds nothing or less
+		case "tpm-extra-empty-other-thumb":
+			w.TPM.Extra, w.Signed = "empty", expectedKeyAuth(k.Token, otherAcct(r, k.Acct))
 		default:
 			w.TPM.Mut = strings.TrimPrefix(m, "tpm-")
 		}
@@ -648,6 +654,10 @@ func genDA(r *c.Rng, k *Case) {
 		k.AzExp = true
 	case 3:
 		k.AzSt, k.AzExp = c.Pick(r, []string{"invalid", "valid"}), true
+	}
+	// the authorization named in the request URL need not be the one that owns this challenge
+	if r.Chance(1, 6) {
+		k.AzForeign = true
 	}
 	// second-order: now and then combine with a key type
 	if r.Chance(1, 6) && w.Key == "p256" {
@@ -683,6 +693,17 @@ func cornerDA() []*Case {
 			DA: &DAW{Format: "apple", Roots: "ca", X5c: "ok", Key: "p256", ASerial: "sn-1", AUDID: "udid-1", HasNonc: true, Nonce: sha(tok)}})
 		out = append(out, &Case{Op: "validate", Typ: "da", Status: "pending", Token: tok, Value: "device-1", Acct: 0, Mut: "tpm:exact-az", AzSt: az.st, AzExp: az.exp,
 			DA: &DAW{Format: "tpm", TPMVer: "2.0", Roots: "ca", X5c: "ok", Signed: expectedKeyAuth(tok, 0), TPM: &TPMSpec{PIDs: []string{"device-1"}}}})
+	}
+	// tpm qualifying data that is a proper prefix of the digest (or empty, or longer) binds nothing: must be refused
+	for _, x := range []string{"empty", "prefix1", "prefix20", "prefix31", "long33"} {
+		out = append(out, &Case{Op: "validate", Typ: "da", Status: "pending", Token: tok, Value: "device-1", Acct: 0, Mut: "tpm:extra-" + x,
+			DA: &DAW{Format: "tpm", TPMVer: "2.0", Roots: "ca", X5c: "ok", Signed: expectedKeyAuth(tok, 0), TPM: &TPMSpec{PIDs: []string{"device-1"}, Extra: x}}})
+	}
+	// a genuine attestation sent to the challenge URL of ANOTHER authorization (authz id comes from the URL, D15 of C12):
+	// that authorization's own challenges are all pending, it must stay as it is
+	for _, az := range []string{"", "invalid"} {
+		out = append(out, &Case{Op: "validate", Typ: "da", Status: "pending", Token: tok, Value: "12345678", Acct: 0, Mut: "step:foreign-authz", AzSt: az, AzForeign: true,
+			DA: &DAW{Format: "step", Roots: "ca", X5c: "ok", Key: "p256", Sig: "ok", Signed: expectedKeyAuth(tok, 0), Serial: "12345678"}})
 	}
 	// no attestation roots configured + a chain from a CA only the system trust store knows: must be refused
 	out = append(out, &Case{Op: "validate", Typ: "da", Status: "pending", Token: tok, Value: "udid-1", Acct: 0, Mut: "apple:sysca-noroots",
